@@ -57,6 +57,10 @@ def gen_content(rng, loc, top):
         pv = TG.pct(raw) + rng.choice(['%FF', '%C3%28', '%80abc', '%E9'])
         feats.append('non-utf8-escape')
     date = TG.rand_date(rng)
+    if rng.random() < 0.15:
+        # a date at, or up to three days before, a DST change of the simulated zones (the threshold sweep below uses DAYS = 3)
+        date = rng.choice(TG.dst_edge_dates(rng)) - _dt.timedelta(days=rng.choice([0, 0, 1, 2, 3]))
+        feats.append('near-dst-change')
     ds = TG.iso(date)
     lines = ['[Trash Info]', 'Path=' + pv, 'DeletionDate=' + ds]
     r = rng.random()
@@ -144,6 +148,7 @@ def gen(rng):
         'procs': [{'argv': ['trash-list'], 'env': env, 'cwd': '/', 'uid': uid}],
         'dirsalt': rng.randrange(1 << 30),
         'note': {'tdir': tdir, 'custom': bool(custom), 'feats': feats, 'home_mode': hm, 'other_td': other_td, 'twin': twin},
+        'clock': TG.dst_clock(rng) if rng.random() < 0.5 else {},
     }
 
 
